@@ -8,7 +8,7 @@
     bound token, with call data of every outcome kind, with fees), relays, acknowledgements (late, out of
     order, duplicated, premature: rejected ones change nothing) and fee top-ups of all chains. *)
 From Coq Require Import List Arith PeanoNat NArith Bool Lia.
-From Teleport Require Import Base.Outcome Model.Bridge Model.BridgeCheck Proofs.Bridge Proofs.BridgeOutcome Proofs.BridgeBacking.
+From Teleport Require Import Base.Outcome Model.Bridge Model.BridgeCheck Model.BridgeGov Proofs.BridgeGov Proofs.Bridge Proofs.BridgeOutcome Proofs.BridgeBacking Proofs.BridgeLedger Proofs.BridgeFees.
 Import ListNotations.
 Local Open Scope N_scope.
 
@@ -59,6 +59,53 @@ Theorem C03_backing_step : forall cfg base s o s',
   wf cfg s -> Ghost cfg s -> Backed cfg base s -> step cfg s o = Ok s' -> Backed cfg base s'.
 Proof. exact step_backed. Qed.
 Print Assumptions C03_backing_step.
+
+(** No history creates value: in every reachable state what chain [B] has minted for token [t] of chain [A] never
+    exceeds (in [B]-units) what [A] counts as escrowed towards [B], and the endpoint contract on [A] really holds at
+    least the sum of what it counts as escrowed towards all chains. *)
+Theorem C03_vouchers_backed : forall cfg s0 h,
+  cfg_consistent cfg -> init_ok s0 ->
+  forall A t,
+    (forall B loc k, A <> B -> trace cfg B A t = Some (loc, k) ->
+       bind_amt (chains (run cfg s0 h) B) loc A <= out_tokens (chains (run cfg s0 h) A) t B * k) /\
+    sum_over (nchains cfg) (out_tokens (chains (run cfg s0 h) A) t) <= bal (chains (run cfg s0 h) A) t Endpoint.
+Proof. exact vouchers_backed. Qed.
+Print Assumptions C03_vouchers_backed.
+
+(** * The relayer-fee escrow is backed; a refused transfer can always be refunded *)
+
+(** In every reachable state, on every chain and for every token, the packet contract holds at least the sum of the fees
+    recorded ([packetFees]) for the not yet acknowledged packets sent from that chain. *)
+Theorem C03_fee_escrow_backed : forall cfg s0 h,
+  cfg_consistent cfg -> init_ok s0 ->
+  forall A t, sumN (map (fee_due (chains (run cfg s0 h)) A t) (packets (run cfg s0 h))) <= bal (chains (run cfg s0 h) A) t PacketC.
+Proof. exact run_fs_init. Qed.
+Print Assumptions C03_fee_escrow_backed.
+
+Theorem C03_fee_escrow_step : forall cfg, cfg_consistent cfg -> forall s o s',
+  wf cfg s -> Ghost cfg s -> conserved cfg s -> FS s -> step cfg s o = Ok s' -> FS s'.
+Proof. exact step_fs. Qed.
+Print Assumptions C03_fee_escrow_step.
+
+Theorem C03_monitor_fees_sound : forall U s, FS s -> fees_solvent U (chains s) (packets s) = true.
+Proof. exact fees_solvent_sound. Qed.
+Print Assumptions C03_monitor_fees_sound.
+
+(** Progress: in every reachable state, every received packet whose callback address is usable and that was delivered
+    (code 0) or carries transfer data can be acknowledged — the relayer fee can be paid out of the packet contract, the
+    escrow to release is there and the endpoint holds it, re-minting needs nothing.  A refused transfer is therefore
+    never left with its value locked, and a delivered one can always be closed.  ([cfg_pos]: scales are 10^n > 0.) *)
+Theorem C03_ack_possible : forall cfg s0 h p,
+  cfg_consistent cfg -> cfg_pos cfg -> init_ok s0 ->
+  let s := run cfg s0 h in
+  In p (packets s) -> is_received p = true -> p_cb p <> CbBroken -> (p_code p = 0 \/ p_amount p <> 0) ->
+  exists s', step cfg s (Ack (p_src p) (p_dst p) (p_seq p)) = Ok s'.
+Proof. exact ack_possible. Qed.
+Print Assumptions C03_ack_possible.
+
+Theorem C03_cfg_pos_check : forall n l, binds_pos l = true -> cfg_pos (cfg_of n l).
+Proof. exact cfg_of_pos. Qed.
+Print Assumptions C03_cfg_pos_check.
 
 (** * One outcome *)
 
@@ -141,10 +188,101 @@ Theorem C03_error_ack_refund : forall cfg s src dst sq s' p,
 Proof. exact ack_error_refund. Qed.
 Print Assumptions C03_error_ack_refund.
 
-(** A rejected operation (duplicate / premature relay, insufficient balance, unknown chain, ...) changes nothing. *)
+(** The same for every REACHABLE state, without the side condition on the sender. *)
+Theorem C03_error_ack_refund_reachable : forall cfg s0 h src dst sq s' p,
+  cfg_consistent cfg -> init_ok s0 ->
+  step cfg (run cfg s0 h) (Ack src dst sq) = Ok s' -> lookup src dst sq (packets (run cfg s0 h)) = Some p -> p_code p <> 0 ->
+  (forall c, c <> src -> chains s' c = chains (run cfg s0 h) c) /\
+  ack_status (chains s' src) dst sq = 2 /\
+  bal (chains s' src) (p_token p) (refund_target p) =
+    bal (chains (run cfg s0 h) src) (p_token p) (refund_target p) + refund_due cfg p.
+Proof. exact ack_error_refund_reachable. Qed.
+Print Assumptions C03_error_ack_refund_reachable.
+
+(** ... and nothing else changes (any state): no other chain, no other counter, no other holder's balance; the
+    escrow counter shrinks by exactly the amount (forward transfer) resp. total supply and [bindings.amount]
+    grow by exactly the re-minted amount (return transfer). *)
+Theorem C03_error_ack_frame : forall cfg s src dst sq s' p,
+  step cfg s (Ack src dst sq) = Ok s' -> lookup src dst sq (packets s) = Some p -> p_code p <> 0 ->
+  (forall c, c <> src -> chains s' c = chains s c) /\
+  next_seq (chains s' src) = next_seq (chains s src) /\
+  fees (chains s' src) = fees (chains s src) /\
+  effects (chains s' src) = effects (chains s src) /\
+  (forall d q, ack_status (chains s' src) d q = if Nat.eqb dst d && N.eqb sq q then 2 else ack_status (chains s src) d q) /\
+  (forall t h, ~ touched_by_refund p h -> bal (chains s' src) t h = bal (chains s src) t h) /\
+  p_amount p <> 0 /\
+  match p_ori p with
+  | None =>
+      supply (chains s' src) = supply (chains s src) /\ bind_amt (chains s' src) = bind_amt (chains s src) /\
+      p_amount p <= out_tokens (chains s src) (p_token p) dst /\
+      (forall t d, out_tokens (chains s' src) t d =
+                   if Nat.eqb (p_token p) t && Nat.eqb dst d then out_tokens (chains s src) t d - p_amount p
+                   else out_tokens (chains s src) t d)
+  | Some _ =>
+      out_tokens (chains s' src) = out_tokens (chains s src) /\
+      (forall t, supply (chains s' src) t = if Nat.eqb (p_token p) t then supply (chains s src) t + refund_due cfg p
+                                            else supply (chains s src) t) /\
+      (forall t d, bind_amt (chains s' src) t d =
+                   if Nat.eqb (p_token p) t && Nat.eqb dst d then bind_amt (chains s src) t d + refund_due cfg p
+                   else bind_amt (chains s src) t d)
+  end.
+Proof. exact ack_error_frame. Qed.
+Print Assumptions C03_error_ack_frame.
+
+(** * What a successful receive does to the real ledgers (any state) *)
+
+(** Success acknowledgement written (result code 0): no other chain changes; the destination ledger is exactly the
+    token part of the packet ([give_tokens]: mint against the binding / release of escrow) followed, for call data
+    other than [Agent.send], by the observable effect of that call data and nothing else. *)
+Theorem C03_success_recv_effect : forall cfg s src dst sq s' p q',
+  step cfg s (Recv src dst sq) = Ok s' ->
+  lookup src dst sq (packets s) = Some p ->
+  lookup src dst sq (packets s') = Some q' -> p_code q' = 0 ->
+  (forall c, c <> dst -> chains s' c = chains s c) /\
+  p_status q' = RecvOk /\
+  exists cs1, give_tokens cfg (chains s dst) p = Some (cs1, p_delivered q') /\
+    (no_agent p ->
+       same_core (chains s' dst) cs1 /\
+       (forall e, effects (chains s' dst) e = match p_cd p with
+                                              | CdOk e0 => if Nat.eqb e0 e then 7 else effects (chains s dst) e
+                                              | _ => effects (chains s dst) e end)).
+Proof. exact recv_success_effect. Qed.
+Print Assumptions C03_success_recv_effect.
+
+(** The receiver is credited with exactly the delivered amount of the delivered token: minted against the binding
+    (total supply and [bindings.amount] grow by the same amount, nobody else's balance changes) or released from the
+    endpoint's escrow ([outTokens] and the endpoint's balance shrink by it, supply untouched). *)
+Theorem C03_success_recv_credit : forall cfg s src dst sq s' p q',
+  step cfg s (Recv src dst sq) = Ok s' ->
+  lookup src dst sq (packets s) = Some p ->
+  lookup src dst sq (packets s') = Some q' -> p_code q' = 0 -> no_agent p -> p_amount p <> 0 ->
+  exists r T k, p_recv p = Some r /\ delivered_token cfg p = Some (T, k) /\
+    (r <> Endpoint -> bal (chains s' dst) T r = bal (chains s dst) T r + p_delivered q') /\
+    (forall t h, (t <> T \/ (h <> r /\ h <> Endpoint)) -> bal (chains s' dst) t h = bal (chains s dst) t h) /\
+    match p_ori p with
+    | None => supply (chains s' dst) T = supply (chains s dst) T + p_delivered q' /\
+              bind_amt (chains s' dst) T src = bind_amt (chains s dst) T src + p_delivered q' /\
+              out_tokens (chains s' dst) = out_tokens (chains s dst) /\
+              (forall h, bal (chains s' dst) T h = if holder_eqb r h then bal (chains s dst) T r + p_delivered q' else bal (chains s dst) T h)
+    | Some _ => supply (chains s' dst) = supply (chains s dst) /\
+                bind_amt (chains s' dst) = bind_amt (chains s dst) /\
+                out_tokens (chains s' dst) T src = out_tokens (chains s dst) T src - p_delivered q' /\
+                p_delivered q' <= out_tokens (chains s dst) T src /\ p_delivered q' <= bal (chains s dst) T Endpoint /\
+                (r <> Endpoint -> bal (chains s' dst) T Endpoint = bal (chains s dst) T Endpoint - p_delivered q')
+    end.
+Proof. exact recv_success_credit. Qed.
+Print Assumptions C03_success_recv_credit.
+
+(** A rejected operation (duplicate / premature relay, forged / altered / misrouted relay message [Fault], insufficient
+    balance, unknown chain, ...) changes nothing; and the model has no transition at all for a relay message that is not
+    authentic. *)
 Theorem C03_rejected_no_effect : forall cfg s o, step cfg s o = Err -> apply_gen recv_chain cfg s o = s.
 Proof. exact rejected_no_effect. Qed.
 Print Assumptions C03_rejected_no_effect.
+
+Theorem C03_fault_rejected : forall cfg s k src dst sq, step cfg s (Fault k src dst sq) = Err.
+Proof. reflexivity. Qed.
+Print Assumptions C03_fault_rejected.
 
 (** * Ties to the executable checks *)
 
@@ -212,3 +350,79 @@ Proof.
   - split; [reflexivity|]. intros A B t. unfold ex_s0; cbn. destruct (Nat.eqb A 0); split; reflexivity.
   - vm_compute. repeat split; reflexivity.
 Qed.
+
+(** * Token bindings registered in the middle of a history (Model/BridgeGov.v)
+
+    [grun]: transfers, relays, acknowledgements, fee top-ups, faulty relay messages and governance registrations of token
+    bindings ([GBind]: RegisterERC20Trace -> Endpoint.bindToken), in any order, from a fresh system with any consistent
+    list of bindings.  Provided no binding slot is registered twice ([no_rebind]; necessary: Refuted/C03_rebind.v), in
+    every reachable state the configuration is consistent, the conservation equation holds under the configuration of
+    the moment, the ghost accounting (never both) holds and the counters are backed. *)
+Theorem C03_gov_conservation : forall n l s0 h,
+  binds_ok l = true -> init_ok s0 -> no_rebind (ginit n l s0) h ->
+  let g := grun (ginit n l s0) h in
+  cfg_consistent (g_cfg g) /\
+  (forall A B t, A <> B ->
+     match trace (g_cfg g) B A t with
+     | Some (loc, k) => out_tokens (chains (g_st g) A) t B * k
+                        = bind_amt (chains (g_st g) B) loc A + k * sum_contrib A B t (packets (g_st g))
+     | None => out_tokens (chains (g_st g) A) t B = sum_contrib A B t (packets (g_st g))
+     end) /\
+  Ghost (g_cfg g) (g_st g) /\
+  Backed (g_cfg g) (fun c t => supply (chains s0 c) t) (g_st g).
+Proof. exact grun_conserved. Qed.
+Print Assumptions C03_gov_conservation.
+
+(** per step, from any state satisfying the invariant *)
+Theorem C03_gov_step_preserves : forall base g o g',
+  GInv base g ->
+  match o with GBind e => bind_fresh e (g_binds g) = true | GOp _ => True end ->
+  gstep g o = Ok g' -> GInv base g'.
+Proof. exact gstep_inv. Qed.
+Print Assumptions C03_gov_step_preserves.
+
+(** a history without registrations is a history of Model/Bridge.v under the initial configuration *)
+Theorem C03_gov_extends : forall g h,
+  grun g (map GOp h) = {| g_n := g_n g; g_binds := g_binds g; g_st := run (g_cfg g) (g_st g) h |}.
+Proof. exact grun_ops. Qed.
+Print Assumptions C03_gov_extends.
+
+(** The fee escrow stays backed and every refusable packet stays refundable over histories with registrations. *)
+Theorem C03_gov_fee_escrow_backed : forall n l s0 h,
+  binds_ok l = true -> init_ok s0 -> no_rebind (ginit n l s0) h ->
+  let g := grun (ginit n l s0) h in
+  forall A t, sumN (map (fee_due (chains (g_st g)) A t) (packets (g_st g))) <= bal (chains (g_st g) A) t PacketC.
+Proof.
+  intros n l s0 h Hok Hi Hn. exact (grun_fs _ h _ (ginit_inv n l s0 Hok Hi) (init_fs s0 Hi) Hn).
+Qed.
+Print Assumptions C03_gov_fee_escrow_backed.
+
+Theorem C03_gov_ack_possible : forall n l s0 h p,
+  binds_ok l = true -> binds_pos l = true -> init_ok s0 -> no_rebind (ginit n l s0) h -> gbinds_pos h ->
+  let g := grun (ginit n l s0) h in
+  In p (packets (g_st g)) -> is_received p = true -> p_cb p <> CbBroken -> (p_code p = 0 \/ p_amount p <> 0) ->
+  exists s', step (g_cfg g) (g_st g) (Ack (p_src p) (p_dst p) (p_seq p)) = Ok s'.
+Proof. exact gov_ack_possible. Qed.
+Print Assumptions C03_gov_ack_possible.
+
+(** Non-vacuity: a packet sent before its token is bound on the destination, the binding registered while it is in
+    flight, then delivered; the history satisfies [no_rebind]. *)
+Definition exg_history : list gop :=
+  [ GOp (Transfer 0 0 1 300 1 (Some (User 1)) CdNone false 1 0); GOp (Recv 0 1 1);
+    GOp (Transfer 0 0 1 1000 1 (Some (User 1)) CdNone false 1 0);
+    GBind (1%nat, 1%nat, 0%nat, 1%nat, 100);
+    GOp (Ack 0 1 1); GOp (Recv 0 1 2); GOp (Ack 0 1 2) ].
+
+Example C03_gov_nonvacuous :
+  binds_ok [] = true /\ init_ok ex_s0 /\ no_rebind (ginit 2 [] ex_s0) exg_history /\
+  let g := grun (ginit 2 [] ex_s0) exg_history in
+  g_binds g = [(1%nat, 1%nat, 0%nat, 1%nat, 100)] /\
+  map p_status (packets (g_st g)) = [Refunded; AckOk] /\ map p_code (packets (g_st g)) = [2; 0] /\
+  bal (chains (g_st g) 0) 1 (User 0) = 9000 /\ out_tokens (chains (g_st g) 0) 1 1 = 1000 /\
+  bind_amt (chains (g_st g) 1) 1 0 = 100000 /\ bal (chains (g_st g) 1) 1 (User 1) = 100000.
+Proof.
+  split; [reflexivity|]. split.
+  - split; [reflexivity|]. intros A B t. unfold ex_s0; cbn. destruct (Nat.eqb A 0); split; reflexivity.
+  - split; [cbn; repeat split|]. vm_compute. repeat split; reflexivity.
+Qed.
+
